@@ -1,0 +1,88 @@
+// SPDX-License-Identifier: MPL-2.0
+
+//! Verification hooks, only compiled with `--cfg pubgrub_verif`.
+//!
+//! Read-only observation of the solver state (text snapshots handed to a thread-local observer)
+//! and public wrappers around the crate-private [Term] operations.
+
+use std::cell::RefCell;
+
+use crate::{Term, VersionSet};
+
+thread_local! {
+    static OBSERVER: RefCell<Option<Box<dyn FnMut(&str)>>> = const { RefCell::new(None) };
+}
+
+/// Install (or remove) the observer that receives the solver snapshots of the current thread.
+pub fn set_observer(observer: Option<Box<dyn FnMut(&str)>>) {
+    OBSERVER.with(|o| *o.borrow_mut() = observer);
+}
+
+/// Hand a snapshot to the observer, if there is one. The snapshot is only built when observed.
+pub(crate) fn emit(snapshot: impl FnOnce() -> String) {
+    OBSERVER.with(|o| {
+        if let Some(observer) = o.borrow_mut().as_mut() {
+            observer(&snapshot());
+        }
+    });
+}
+
+/// Outcome of [term_relation_with].
+#[derive(Debug, Clone, Copy, PartialEq, Eq)]
+pub enum TermRelation {
+    /// The term is satisfied by the other one.
+    Satisfied,
+    /// The term is contradicted by the other one.
+    Contradicted,
+    /// Neither.
+    Inconclusive,
+}
+
+/// [Term::negate].
+pub fn term_negate<VS: VersionSet>(t: &Term<VS>) -> Term<VS> {
+    t.negate()
+}
+/// [Term::intersection].
+pub fn term_intersection<VS: VersionSet>(t1: &Term<VS>, t2: &Term<VS>) -> Term<VS> {
+    t1.intersection(t2)
+}
+/// [Term::union].
+pub fn term_union<VS: VersionSet>(t1: &Term<VS>, t2: &Term<VS>) -> Term<VS> {
+    t1.union(t2)
+}
+/// [Term::subset_of].
+pub fn term_subset_of<VS: VersionSet>(t1: &Term<VS>, t2: &Term<VS>) -> bool {
+    t1.subset_of(t2)
+}
+/// [Term::is_disjoint].
+pub fn term_is_disjoint<VS: VersionSet>(t1: &Term<VS>, t2: &Term<VS>) -> bool {
+    t1.is_disjoint(t2)
+}
+/// [Term::contains].
+pub fn term_contains<VS: VersionSet>(t: &Term<VS>, v: &VS::V) -> bool {
+    t.contains(v)
+}
+/// [Term::is_positive].
+pub fn term_is_positive<VS: VersionSet>(t: &Term<VS>) -> bool {
+    t.is_positive()
+}
+/// [Term::any].
+pub fn term_any<VS: VersionSet>() -> Term<VS> {
+    Term::any()
+}
+/// [Term::empty].
+pub fn term_empty<VS: VersionSet>() -> Term<VS> {
+    Term::empty()
+}
+/// [Term::exact].
+pub fn term_exact<VS: VersionSet>(v: VS::V) -> Term<VS> {
+    Term::exact(v)
+}
+/// [Term::relation_with].
+pub fn term_relation_with<VS: VersionSet>(t1: &Term<VS>, t2: &Term<VS>) -> TermRelation {
+    match t1.relation_with(t2) {
+        crate::term::Relation::Satisfied => TermRelation::Satisfied,
+        crate::term::Relation::Contradicted => TermRelation::Contradicted,
+        crate::term::Relation::Inconclusive => TermRelation::Inconclusive,
+    }
+}
